@@ -32,6 +32,50 @@ func init() {
 		Old: "return binary.NewVectorOperator(model.NewVectorPool(stepsBatch), leftOperator, rightOperator, e.VectorMatching, e.Op, e.ReturnBool)", New: "_ = rightOperator\n\treturn binary.NewVectorOperator(model.NewVectorPool(stepsBatch), leftOperator, leftOperator, e.VectorMatching, e.Op, e.ReturnBool)", Expect: "newVectorBinaryOperator"})
 }
 
+// plannerFunc finds the recursive plan constructor of package execution: the function newOperator, or - when
+// its state was grouped into a builder type - the method of that name, or else the function or method of the
+// package that takes an expression and select hints and calls itself.
+func plannerFunc(p *core.Program) *ssa.Function {
+	if fn := p.Func("execution", "newOperator"); fn != nil {
+		return fn
+	}
+	var byName, byShape *ssa.Function
+	for _, fn := range p.Funcs {
+		if core.Rel(fn.Pkg.Pkg.Path()) != "execution" || fn.Parent() != nil {
+			continue
+		}
+		hasExpr, hasHints := false, false
+		for _, prm := range fn.Params {
+			if core.TypeIs(prm.Type(), pkgParser, "Expr") {
+				hasExpr = true
+			}
+			if core.TypeIs(prm.Type(), pkgStorage, "SelectHints") {
+				hasHints = true
+			}
+		}
+		if !hasExpr || !hasHints {
+			continue
+		}
+		if fn.Name() == "newOperator" {
+			byName = fn
+		}
+		recursive := false
+		f := fn
+		core.EachInstr(fn, func(_ *ssa.BasicBlock, _ int, ins ssa.Instruction) {
+			if c, ok := ins.(*ssa.Call); ok && c.Call.StaticCallee() == f {
+				recursive = true
+			}
+		})
+		if recursive && byShape == nil {
+			byShape = fn
+		}
+	}
+	if byName != nil {
+		return byName
+	}
+	return byShape
+}
+
 // referenceHintShape re-reads the case lists of the pinned reference's path helpers.
 func referenceHintShape(p *core.Program) (funcCases, groupCases []string, err error) {
 	pk := p.Deps[pkgPromql]
@@ -138,7 +182,7 @@ func ruleHintXfer(p *core.Program) []core.Obligation {
 	}
 	constrained := map[string]bool{"Call": true, "AggregateExpr": true, "BinaryExpr": true, "ParenExpr": true, "UnaryExpr": true, "StepInvariantExpr": true}
 
-	newOp := p.Func("execution", "newOperator")
+	newOp := plannerFunc(p)
 	if newOp == nil {
 		return append(obs, core.Ob(rule, "execution.newOperator", "-", "", core.Lost, "not found"))
 	}
